@@ -15,6 +15,7 @@ R1.7  writer typestate: indent()/dedent() are balanced on every path of every em
       the signature generator leaves +1 that the method generator closes)
 R1.8  de-collision precedes emission and the set of schemas that get files is the set that is exported/imported: a
       file filter after naming must be unsatisfiable or be applied to the registry the exports are rendered from
+R1.12 spec text placed after a `#` has every line boundary removed (otherwise the rest of the description is parsed as code)  [= R15.1, COMMENT holes]
 R1.11 RenderContext's completion of "incomplete" internal module paths never applies to a module of the core package
 R1.10 the tag client modules client.py imports are the ones the endpoints emitter writes (grouping agreement, rules of C07)
 R1.9  duplicate argument names cannot be emitted (operation-level override + de-dup)                     [= R4.4 / R20.2]
@@ -68,6 +69,10 @@ def run(repo: Repo, rep: Report, tier: str) -> None:
     rep.count("R1.1:handler_emit_sites", n5)
 
     rule_completion_spares_core(repo, rep, "R1.11")
+    # R1.12: nothing that ends a source line survives into a `# comment` built from spec text (instances of R15.1 in COMMENT position)
+    from rules._reuse import reuse as _reuse112
+
+    _reuse112(repo, rep, "c15", {"R15.1": "R1.12"}, only=lambda subj: " in COMMENT of " in subj)
     # ---------------------------------------------------------------- R1.3
     # every alias class an endpoints module imports is defined by the alias emitters (rule instances of C06/R6.4, with its fallbacks)
     from rules._reuse import reuse as _reuse13
